@@ -1908,7 +1908,7 @@ public:
 
     //! Copy constructor
     __TBB_NOINLINE_SYM priority_queue_node( const priority_queue_node &src )
-        : buffer_node<T>(src), mark(0)
+        : buffer_node<T>(src), compare(src.compare), mark(0)
     {
         fgt_node( CODEPTR(), FLOW_PRIORITY_QUEUE_NODE, &(this->my_graph),
                                  static_cast<receiver<input_type> *>(this),
